@@ -56,7 +56,7 @@ impl Step {
 	pub fn short(&self, u: &Universe) -> String {
 		match self {
 			Step::Msg(i) => u.msgs[*i].label.clone(),
-			Step::FailChan(s) => format!("failchan({:x})", s >> 40),
+			Step::FailChan(s) => format!("failchan({})", s >> 40),
 			Step::FailNode(n) => format!("failnode({})", ["A", "B", "C", "D"][*n]),
 			Step::Prune(t) => format!("prune({:+})", *t as i64 - u.era.t0() as i64 - crate::uni::STALE as i64),
 			Step::Rgs(i, t) => format!("rgs({},{:?})", i, t.map(|t| t as i64 - u.era.t0() as i64)),
@@ -114,6 +114,7 @@ pub struct Outcome {
 	/// the same with node channel lists left in stored order
 	pub final_n0s: Vec<u8>,
 	pub final_snap: Snap,
+	#[allow(dead_code)]
 	pub final_graph: Option<Arc<Graph>>,
 	/// labels of the messages accepted, in order
 	pub trace: Vec<(String, bool)>,
